@@ -20,6 +20,8 @@ var equivHeaderSpellings = map[string][][]string{
 	"Accept-Language": {{"en, fr"}, {"fr, en"}, {"en,fr"}, {"en", "fr"}, {"en", "fr"}},
 	"X-A":             {{"1"}, {"1"}, {"1", "b"}, {"1, b"}},
 	"X-Raw":           {{"caf$XE9"}, {"caf$XE9"}, {"na$XEFve $XFF"}},
+	"Te":              {{"trailers, deflate"}, {"deflate, trailers"}, {"trailers,deflate"}, {" trailers ,  deflate"}, {"trailers", "deflate"}},
+	"Accept":          {{"text/html, application/json"}, {"application/json, text/html"}, {"text/html,application/json"}},
 }
 
 var otherHeaderValues = map[string][]string{
@@ -27,6 +29,8 @@ var otherHeaderValues = map[string][]string{
 	"Accept-Language": {"de", "nl, de"},
 	"X-A":             {"2", "3"},
 	"X-Raw":           {"caf$XE8", "cafe"},
+	"Te":              {"trailers", "gzip"},
+	"Accept":          {"text/plain", "*/*"},
 }
 
 // C09 generates histories in which stored replies stay fresh and are requested again under
@@ -57,7 +61,7 @@ func C09(t *rapid.T) *world.Scenario {
 			slots[i].res = ExactLenResource(n)
 		}
 		if Pct(t, "vary"+itoa(int64(i)), 35) {
-			slots[i].vary = Pick(t, "varyf"+itoa(int64(i)), "Accept-Encoding", "Accept-Language", "X-A", "X-Raw")
+			slots[i].vary = Pick(t, "varyf"+itoa(int64(i)), "Accept-Encoding", "Accept-Language", "X-A", "X-Raw", "Te", "Accept")
 		}
 	}
 	n := rapid.IntRange(2, 10).Draw(t, "steps")
@@ -120,6 +124,10 @@ func C09(t *rapid.T) *world.Scenario {
 		if sl.vary != "" {
 			rp.Header = append(rp.Header, H("Vary", sl.vary))
 		}
+		if Pct(t, lbl+"-bodyclass", 25) {
+			// bodies that look like what the entry format itself consists of
+			rp.Body = world.Body{Len: Pick(t, lbl+"-bodylen", 40, 150, 400, 3000), Class: Pick(t, lbl+"-bodycls", "httpish", "meta", "crlf", "nul", "rand"), Seed: uint64(rapid.IntRange(0, 300).Draw(t, lbl+"-bodyseed"))}
+		}
 		rq.Uncond = rp
 		rq.Cond = Simple304()
 		sc.Steps = append(sc.Steps, ReqStep(rq))
@@ -141,6 +149,9 @@ func C08(t *rapid.T) *world.Scenario {
 	}
 	if Pct(t, "gridfamily", 10) {
 		return c08Grid(t, sc, u)
+	}
+	if Pct(t, "duringfamily", 8) {
+		return c08During(t, sc, u)
 	}
 	withVary := Pct(t, "vary", 50)
 	n := rapid.IntRange(3, 10).Draw(t, "steps")
@@ -244,6 +255,68 @@ func C08(t *rapid.T) *world.Scenario {
 		}
 		sc.Steps = append(sc.Steps, ReqStep(rq))
 	}
+	return sc
+}
+
+// c08During: while the background validation of one variant waits for the origin, other
+// variants of the URI are stored (and one may be refreshed). They are all still there when the
+// validation result has been written back.
+func c08During(t *rapid.T, sc *world.Scenario, u string) *world.Scenario {
+	life := Pick(t, "dlife", int64(1), 5, 10)
+	lat := Pick(t, "dlat", int64(2), 3, 4)
+	mk := func(cc string) world.Reply {
+		return world.Reply{Kind: "resp", Status: 200, Body: world.Body{Len: rapid.IntRange(8, 40).Draw(t, "dblen")},
+			Header: [][2]string{H("Date", "$T+0"), H("Cache-Control", cc), H("X-Gen", "g$S"), H("Etag", `"v$S"`), H("Vary", "X-A")}}
+	}
+	get := func(xa string) *world.Req {
+		rq := &world.Req{Method: "GET", URL: u, Header: [][2]string{H("X-A", xa)}}
+		rq.Uncond = mk("max-age=600")
+		rq.Cond = &world.Reply{Kind: "resp", Status: 304, Header: [][2]string{H("Date", "$T+0"), H("Cache-Control", "max-age=600"), H("X-Gen", "g$S"), H("Vary", "X-A")}}
+		return rq
+	}
+	first := get("1")
+	first.Uncond = mk("max-age=" + itoa(life) + ", stale-while-revalidate=3600")
+	sc.Steps = append(sc.Steps, ReqStep(first))
+	if Pct(t, "dpre", 40) {
+		// a sibling that exists before the validation starts
+		sc.Steps = append(sc.Steps, ReqStep(get("0")))
+	}
+	sc.Steps = append(sc.Steps, SleepStep(life+Pick(t, "dinto", int64(0), 1, 5)))
+	stale := get("1")
+	var bg world.Reply
+	if Pct(t, "dfull", 40) {
+		bg = mk("max-age=600")
+	} else {
+		bg = *stale.Cond
+	}
+	bg.LatencyNs = lat * Sec
+	stale.Bg = &bg
+	sc.Steps = append(sc.Steps, ReqStep(stale))
+	// in the meantime
+	k := rapid.IntRange(1, 3).Draw(t, "dmean")
+	spent := int64(0)
+	var others []string
+	for i := 0; i < k; i++ {
+		lbl := "dm" + itoa(int64(i))
+		if spent+1 < lat && Pct(t, lbl+"-sleep", 40) {
+			sc.Steps = append(sc.Steps, SleepStep(1))
+			spent++
+		}
+		xa := Pick(t, lbl+"-xa", "2", "3", "2", "0")
+		others = append(others, xa)
+		sc.Steps = append(sc.Steps, ReqStep(get(xa)))
+	}
+	sc.Steps = append(sc.Steps, SleepStep(lat-spent+Pick(t, "dafter", int64(1), 5, 60)))
+	for i, xa := range others {
+		if Pct(t, "dchk"+itoa(int64(i)), 80) {
+			sc.Steps = append(sc.Steps, ReqStep(get(xa)))
+		}
+	}
+	sc.Steps = append(sc.Steps, ReqStep(get("1")))
+	if Pct(t, "dchk0", 50) {
+		sc.Steps = append(sc.Steps, ReqStep(get("0")))
+	}
+	sc.Note = "during"
 	return sc
 }
 
